@@ -344,6 +344,49 @@ def run_bq(devs, budgets, seq=None, cuts=None, style="hsms"):
     return res
 
 
+def check_two_endpoints(case):
+    """Two protocol objects in one process, each fed its own stream, segments alternating: each delivers exactly its own messages
+    (nothing of the receive path may be shared between objects)."""
+    seqs = [[tuple(x) for x in case["seq_a"]], [tuple(x) for x in case["seq_b"]]]
+    box = {}
+
+    def driver(s):
+        eps, gots = [], []
+        for _ in range(2):
+            ep = hh.Endpoint(active=False)
+            got = []
+            ep.protocol.events.message_received += lambda d, got=got: got.append((d["message"].header.system, d["message"].header.stream,
+                                                                                   d["message"].header.function, bytes(d["message"].data).hex()))
+            if not hh.select_passive(s, ep):
+                box["harness"] = "not selected"
+                return
+            ep.pump()
+            eps.append(ep)
+            gots.append(got)
+        segs = [gen.split_at(b"".join(F(k, sy) for k, sy in seq), case["cuts"]) for seq in seqs]
+        for i in range(max(len(x) for x in segs)):
+            for e in range(2):
+                if i < len(segs[e]):
+                    eps[e].conn.peer_send(segs[e][i])
+            s.settle()
+        box["got"] = gots
+        box["replies"] = [[(f["stype"], f["system"]) for f in ep.pump() if f["stype"] != 0] for ep in eps]
+
+    sched = vrt.run(driver, max_steps=400000, max_time=1e6, line_points=False)
+    if sched.harness_failure or sched.driver_exception or box.get("harness"):
+        return {"v": [("HARNESS|c04-two-endpoints", {"case": case, "trace": (sched.harness_failure or sched.driver_exception or box.get("harness"))[-800:]})], "nt": True}
+    out = []
+    if sched.outcome != "done":
+        out.append((f"C04|two-endpoints|execution-{sched.outcome}", {"case": case, "info": sched.deadlock_info}))
+        return {"v": out, "nt": True}
+    for e in range(2):
+        want_d, want_r = expected(seqs[e])
+        if box["got"][e] != want_d or box["replies"][e] != want_r:
+            out.append(("C04|two-endpoints|an-endpoint-does-not-deliver-exactly-its-own-stream", {"case": case, "endpoint": e, "got": box["got"][e], "want": want_d,
+                                                                                                 "replies": box["replies"][e]}))
+    return {"v": out, "nt": True}
+
+
 def _cut_region(stream, seq, cuts):
     if not cuts or len(cuts) == len(stream) - 1:
         return "-"
@@ -368,6 +411,8 @@ def check_case(case):
         return check_frame(case["f"])
     if case["kind"] == "outbound":
         return check_outbound(case)
+    if case["kind"] == "two":
+        return check_two_endpoints(case)
     r = run_stream({}, {}, seq=[tuple(x) for x in case["seq"]], cuts=case["cuts"], mode="stepwise", stale=case.get("stale"))
     v = r["v"]
     if r.get("harness"):
@@ -450,6 +495,11 @@ def run(ctx):
         for f in frame_cases(ctx.thorough):
             yield {"kind": "frame", "f": f}
         yield from stream_cases(ctx.thorough)
+        # two protocol objects side by side, alternating segments
+        for sa, sb in ((SEQS[3], SEQS[4]), (SEQS[9], SEQS[10]), (SEQS[7], SEQS[7])):
+            n = min(len(b"".join(F(k, sy) for k, sy in sa)), len(b"".join(F(k, sy) for k, sy in sb)))
+            for cuts in ([], [2], [9], [14], [n // 2], [5, 16, 21], list(range(1, n))):
+                yield {"kind": "two", "seq_a": sa, "seq_b": sb, "cuts": cuts}
         # outbound: every frame size 14 .. 3 * P + 16 for small packet sizes P; around 1 (2, 3 thorough) MiB for the shipped P
         for psize in (5, 16, 64):
             alln = list(range(0, 3 * psize + 3))
